@@ -3,3 +3,7 @@
 
 #[cfg(all(kani, feature = "p_dvi"))]
 mod c16_dvi;
+#[cfg(all(kani, feature = "p_stdext"))]
+mod c20_grouping;
+#[cfg(all(kani, feature = "p_stdext"))]
+mod c20_probe;
